@@ -537,7 +537,7 @@ pub fn before(t: usize, a: &Access) -> bool {
         if s.steps % every.max(1) == 0 && s.crash_points.len() < 6000 && !s.torn_down {
             let bytes = unsafe { std::slice::from_raw_parts(s.base as *const u8, s.cap) }.to_vec();
             let site = match (0..s.n).find_map(|u| s.outstanding[u]) {
-                Some((_, line)) => format!("after cas:ok@{}", crate::scen::linemap().func(line)),
+                Some((_, line)) => format!("mark-outstanding {}", crate::scen::linemap().func(line)),
                 None if s.last_global.0 == 0 => "operation boundary".to_string(),
                 None => format!("after {}:{}@{}", hook::kind_name(s.last_global.1), ["fail", "ok", "spurious"][s.last_global.2 as usize % 3], crate::scen::linemap().func(s.last_global.0)),
             };
